@@ -13,7 +13,13 @@
 (*  P        weak rows: WeakGc ("weak": key k), Ephemeron ("eph": key k,   *)
 (*           value edge to v, holder h = 0 mutator | node) and weak-map    *)
 (*           entries ("ent": key k, value v, h = map); ok = not cleared,   *)
-(*           held = the pointer object still exists                        *)
+(*           held = the pointer object still exists.  A "weak" / "eph" row *)
+(*           may instead be held by another "eph" row y (hr = y, h = 0):   *)
+(*           its handle lies DIRECTLY in the value of y, next to (or       *)
+(*           instead of: v = 0) the Gc value -- Ephemeron<K, WeakGc<T>>,   *)
+(*           Ephemeron<K, Ephemeron<..>>.  The value of a row is thus the  *)
+(*           record (v, {x : P[x].hr = row}); it is built when the row is  *)
+(*           created (the handles are moved in), so hr > the row's own id  *)
 (*  M        weak maps: holder h (0 mutator | node), held                  *)
 (*  obs      the operation just performed with the result the mutator has  *)
 (*           to observe (this is what replays carry as expectation)        *)
@@ -21,7 +27,10 @@
 (* Reachability is the least set containing the nodes with a mutator       *)
 (* handle, closed under heap edges and under ephemeron edges: the value of *)
 (* a row is reachable when the row itself is reachable (its holder is) and *)
-(* its key is reachable.  Collect frees exactly the unreachable nodes,     *)
+(* its key is reachable; a row held in the value of row y is reachable     *)
+(* when y is reachable, still has its value and y's key is reachable (weak *)
+(* handles are not traced through: being reachable makes a row answer, it  *)
+(* does not make its key reachable).  Collect frees exactly the unreachable nodes,     *)
 (* finalises each of them exactly once before that, lets armed finalizers  *)
 (* hand out handles (which may resurrect nodes: they are finalised but not *)
 (* freed), and clears every weak row whose key (or the row itself) was     *)
@@ -52,14 +61,17 @@ HolderOK(h)  == h = 0 \/ Held(h)                 \* the mutator can get at somet
 (* Reachability under ephemeron semantics                                   *)
 
 MapLive(Mx, m, R) == Mx[m].held /\ (Mx[m].h = 0 \/ Mx[m].h \in R)
+RECURSIVE RowLive(_, _, _)
 RowLive(Px, x, R) ==
   /\ Px[x].held
-  /\ IF Px[x].kind = "ent" THEN MapLive(M, Px[x].h, R) ELSE (Px[x].h = 0 \/ Px[x].h \in R)
+  /\ IF Px[x].kind = "ent" THEN MapLive(M, Px[x].h, R)
+     ELSE IF Px[x].hr # 0 THEN LET y == Px[x].hr IN Px[y].ok /\ Px[y].k \in R /\ RowLive(Px, y, R)
+     ELSE (Px[x].h = 0 \/ Px[x].h \in R)
 
 Succ(R, Px) ==
   R \cup {b \in nodes : \E a \in R : <<a, b>> \in DOMAIN E}
-    \cup {Px[x].v : x \in {y \in DOMAIN Px : /\ Px[y].kind # "weak" /\ Px[y].ok
-                                              /\ Px[y].k \in R /\ RowLive(Px, y, R)}}
+    \cup ({Px[x].v : x \in {y \in DOMAIN Px : /\ Px[y].kind # "weak" /\ Px[y].ok
+                                               /\ Px[y].k \in R /\ RowLive(Px, y, R)}} \ {0})
 RECURSIVE Close(_, _)
 Close(R, Px) == LET S == Succ(R, Px) IN IF S = R THEN R ELSE Close(S, Px)
 Reach(Hx, Px) == Close({n \in nodes : Hx[n] > 0}, Px)
@@ -111,7 +123,16 @@ Load(a, b) ==
   /\ obs' = [op |-> "load", a |-> a, b |-> b]
   /\ UNCHANGED <<nalloc, nodes, E, armed, P, M>>
 
-Row(kind, k, v, h) == [kind |-> kind, k |-> k, v |-> v, h |-> h, ok |-> TRUE, held |-> TRUE]
+Row(kind, k, v, h) == [kind |-> kind, k |-> k, v |-> v, h |-> h, hr |-> 0, ok |-> TRUE, held |-> TRUE]
+
+\* the rows the mutator holds itself (it can move them into the value of a new ephemeron)
+MutRows == {x \in DOMAIN P : P[x].kind \in {"weak", "eph"} /\ P[x].held /\ P[x].h = 0 /\ P[x].hr = 0}
+\* the mutator can get at row x: it holds it, or holds the node that holds it, or can get at the row in whose
+\* value it lies and that row still has its value (Ephemeron::value is Some)
+RECURSIVE Access(_)
+Access(x) ==
+  /\ x \in DOMAIN P /\ P[x].held
+  /\ IF P[x].hr # 0 THEN P[P[x].hr].ok /\ Access(P[x].hr) ELSE HolderOK(P[x].h)
 
 MkWeak(a) ==
   /\ Held(a) /\ Len(P) < MaxP
@@ -121,7 +142,7 @@ MkWeak(a) ==
 
 \* WeakGc::upgrade: a handle on the target iff the target has not been collected
 Upgrade(x) ==
-  /\ x \in DOMAIN P /\ P[x].kind = "weak" /\ P[x].held
+  /\ x \in DOMAIN P /\ P[x].kind = "weak" /\ Access(x)
   /\ IF P[x].ok
        THEN /\ H[P[x].k] < MaxH
             /\ H' = [H EXCEPT ![P[x].k] = @ + 1]
@@ -131,25 +152,28 @@ Upgrade(x) ==
   /\ UNCHANGED <<nalloc, nodes, E, armed, P, M>>
 
 DropWeak(x) ==
-  /\ x \in DOMAIN P /\ P[x].kind = "weak" /\ P[x].held
+  /\ x \in DOMAIN P /\ P[x].kind = "weak" /\ P[x].held /\ P[x].hr = 0
   /\ P' = [P EXCEPT ![x].held = FALSE]
   /\ obs' = [op |-> "dropw", w |-> x]
   /\ UNCHANGED <<nalloc, nodes, H, E, armed, M>>
 
-MkEph(k, v, h) ==
-  /\ Held(k) /\ Held(v) /\ HolderOK(h) /\ Len(P) < MaxP
-  /\ P' = Append(P, Row("eph", k, v, h))
-  /\ obs' = [op |-> "eph", e |-> Len(P) + 1, k |-> k, v |-> v, h |-> h]
+\* Ephemeron::new(&k, value): the value holds a Gc handle on v (v = 0: none) and the weak handles `ws`, which the
+\* mutator moves into it
+MkEph(k, v, h, ws) ==
+  /\ Held(k) /\ (v = 0 \/ Held(v)) /\ HolderOK(h) /\ Len(P) < MaxP /\ ws \subseteq MutRows
+  /\ P' = Append([x \in DOMAIN P |-> IF x \in ws THEN [P[x] EXCEPT !.hr = Len(P) + 1] ELSE P[x]], Row("eph", k, v, h))
+  /\ obs' = [op |-> "eph", e |-> Len(P) + 1, k |-> k, v |-> v, h |-> h, ws |-> ws]
   /\ UNCHANGED <<nalloc, nodes, H, E, armed, M>>
 
 \* Ephemeron::value: the value iff the key has not been collected
+\* (s = 1: Some, r = the node of the Gc handle in the value, 0 if it has none)
 EphValue(x) ==
-  /\ x \in DOMAIN P /\ P[x].kind = "eph" /\ P[x].held /\ HolderOK(P[x].h)
-  /\ obs' = [op |-> "ephval", e |-> x, v |-> P[x].v, r |-> IF P[x].ok THEN P[x].v ELSE 0]
+  /\ x \in DOMAIN P /\ P[x].kind = "eph" /\ Access(x)
+  /\ obs' = [op |-> "ephval", e |-> x, v |-> P[x].v, r |-> IF P[x].ok THEN P[x].v ELSE 0, s |-> IF P[x].ok THEN 1 ELSE 0]
   /\ UNCHANGED <<nalloc, nodes, H, E, armed, P, M>>
 
 DropEph(x) ==
-  /\ x \in DOMAIN P /\ P[x].kind = "eph" /\ P[x].held /\ P[x].h = 0
+  /\ x \in DOMAIN P /\ P[x].kind = "eph" /\ P[x].held /\ P[x].h = 0 /\ P[x].hr = 0
   /\ P' = [P EXCEPT ![x].held = FALSE]
   /\ obs' = [op |-> "drope", e |-> x]
   /\ UNCHANGED <<nalloc, nodes, H, E, armed, M>>
@@ -200,6 +224,15 @@ Arm(a, t) ==
 (* node of U is finalised once; armed finalizers of U fire; what is still  *)
 (* unreachable afterwards is freed.                                        *)
 (***************************************************************************)
+\* the handle of row x still exists after the collection: its holder survived (and, for a row in the value of
+\* another row, that row kept its value)
+RECURSIVE HeldAfter(_, _, _, _)
+HeldAfter(P1, M2, R2, x) ==
+  /\ P[x].held
+  /\ IF P[x].kind = "ent" THEN P1[x].ok /\ M2[P[x].h].held
+     ELSE IF P[x].hr # 0 THEN P1[P[x].hr].ok /\ HeldAfter(P1, M2, R2, P[x].hr)
+     ELSE (P[x].h = 0 \/ P[x].h \in R2)
+
 CollectOutcome ==
   LET R1   == Reach(H, P)
       U    == nodes \ R1
@@ -208,10 +241,7 @@ CollectOutcome ==
       P1   == [x \in DOMAIN P |-> [P[x] EXCEPT !.ok = @ /\ P[x].k \in R1 /\ RowLive(P, x, R1)]]
       R2   == Reach(H2, P1)
       M2   == [m \in DOMAIN M |-> [M[m] EXCEPT !.held = @ /\ (M[m].h = 0 \/ M[m].h \in R2)]]
-      P2   == [x \in DOMAIN P |-> [P1[x] EXCEPT !.held =
-                 /\ @
-                 /\ IF P[x].kind = "ent" THEN P1[x].ok /\ M2[P[x].h].held
-                                         ELSE (P[x].h = 0 \/ P[x].h \in R2)]]
+      P2   == [x \in DOMAIN P |-> [P1[x] EXCEPT !.held = HeldAfter(P1, M2, R2, x)]]
   IN [ nodes |-> R2,
        H     |-> [n \in R2 |-> H2[n]],
        E     |-> [p \in {q \in DOMAIN E : q[1] \in R2} |-> E[p]],
@@ -232,7 +262,7 @@ Mutate ==
   \/ \E a \in nodes : Clone(a) \/ DropHandle(a) \/ MkWeak(a)
   \/ \E a \in nodes, b \in nodes : Link(a, b) \/ Unlink(a, b) \/ Load(a, b) \/ Arm(a, b)
   \/ \E x \in DOMAIN P : Upgrade(x) \/ DropWeak(x) \/ EphValue(x) \/ DropEph(x)
-  \/ \E k \in nodes, v \in nodes, h \in nodes \cup {0} : MkEph(k, v, h)
+  \/ \E k \in nodes, v \in nodes \cup {0}, h \in nodes \cup {0}, ws \in SUBSET MutRows : MkEph(k, v, h, ws)
   \/ \E h \in nodes \cup {0} : MkWm(h)
   \/ \E m \in DOMAIN M : DropWm(m)
   \/ \E m \in DOMAIN M, k \in nodes : WmRemove(m, k) \/ WmGet(m, k)
@@ -250,16 +280,23 @@ TypeOK ==
   /\ \A n \in nodes : H[n] \in 0..MaxH /\ armed[n] \in 0..MaxN
   /\ \A p \in DOMAIN E : p[1] \in nodes /\ p[2] \in nodes /\ E[p] \in 1..MaxE
   /\ \A x \in DOMAIN P : P[x].kind \in {"weak", "eph", "ent"} /\ P[x].ok \in BOOLEAN /\ P[x].held \in BOOLEAN
+  /\ \A x \in DOMAIN P : P[x].hr # 0 =>       \* a row in a value: moved there when the holder was created
+        /\ P[x].hr \in DOMAIN P /\ P[x].hr > x /\ P[P[x].hr].kind = "eph"
+        /\ P[x].kind \in {"weak", "eph"} /\ P[x].h = 0
   /\ \A m \in DOMAIN M : M[m].held \in BOOLEAN
 
 \* nothing the mutator can still get at refers to a freed node
 NoDangling ==
   /\ \A x \in DOMAIN P : P[x].held /\ P[x].ok =>
         /\ P[x].k \in nodes
-        /\ (P[x].kind # "weak" /\ RowLive(P, x, nodes) => P[x].v \in nodes)
+        /\ (P[x].kind # "weak" /\ RowLive(P, x, nodes) => P[x].v \in nodes \cup {0})
   /\ \A m \in DOMAIN M : M[m].held => M[m].h = 0 \/ M[m].h \in nodes
   /\ Reach(H, P) \subseteq nodes
 
 \* a weak row answers iff its key is alive (rows of resurrected keys are cleared: see header)
 WeakSound == \A x \in DOMAIN P : P[x].held /\ ~P[x].ok /\ P[x].kind = "weak" /\ ~AllowArm => P[x].k \notin nodes
+\* the same for the value of an ephemeron, wherever its handle is: an ephemeron the mutator can get at has lost its
+\* value only if its key is gone; and a handle in a value never outlives the value
+EphSound == \A x \in DOMAIN P : P[x].kind = "eph" /\ Access(x) /\ ~P[x].ok /\ ~AllowArm => P[x].k \notin nodes
+NestSound == \A x \in DOMAIN P : P[x].hr # 0 /\ P[x].held => P[P[x].hr].ok
 =============================================================================
